@@ -54,6 +54,32 @@ def root_local(b, o, limit=16):
     return l
 
 
+def padding_form(pad, facts, LEN, env, mutable=False):
+    """(slice-ok, guard-ok) for the padding of a byte body: `pad` is `zeros[0..E]` / `zeros[..E]` with
+    E = round_up_to_word_bytes(LEN) - LEN, under a dominating fact that E is positive (padded > len, E > 0, E != 0, E >= 1)."""
+    RU = Call("bits::round_up_to_word_bytes", LEN)
+    E = Bin("Sub", RU, LEN)
+    idx = (lambda x: "IndexMut" in x and x.endswith("::index_mut")) if mutable else (lambda x: "Index" in x and x.endswith("::index"))
+    second = m(Call(idx, ("repeat", Const(0), ANY), ("adt", "std::ops::Range", "Range", ANY, (Const(0), E))), pad, env) or \
+        m(Call(idx, ("repeat", Const(0), ANY), ("adt", "std::ops::RangeTo", "RangeTo", ANY, (E,))), pad, env)
+    guard = False
+    for fc in facts:
+        if fc[0] != "cmp":
+            continue
+        op, a, c = fc[1], fc[2], fc[3]
+        if op in ("Lt", "Le"):
+            op, a, c = {"Lt": "Gt", "Le": "Ge"}[op], c, a
+        if op == "Gt" and m(RU, a, dict(env)) and m(LEN, c, dict(env)):
+            guard = True
+        if op in ("Gt", "Ne") and m(E, a, dict(env)) and m(Const(0), c):
+            guard = True
+        if op == "Ne" and m(E, c, dict(env)) and m(Const(0), a):
+            guard = True
+        if op == "Ge" and m(E, a, dict(env)) and m(Const(1), c):
+            guard = True
+    return bool(second), guard
+
+
 def check(ctx):
     configs = ["native"] if ctx.tier == "quick" else ["native", "portable", "native-rel", "portable-rel"]
     for cfg in configs:
@@ -284,7 +310,10 @@ def check_basic(ctx, F, by_name, tag):
         env = {}
         if m(Call(lambda x: x.startswith("std::slice::from_raw_parts"), Call(lambda x: x.endswith("::as_ptr"), Param(0)), Bind("n")), bb.term_of_operand(wa[0][1]["args"][1]), env):
             write_len = env["n"]
-    okw = write_len is not None and m(Bin("Mul", Call(is_vec_len, Param(0)), Call("std::mem::size_of")), write_len)
+    okw = write_len is not None and (m(Bin("Mul", Call(is_vec_len, Param(0)), Call("std::mem::size_of")), write_len) or
+                                     # size_of_val of the vector's own element slice is the same number of bytes
+                                     m(Call("std::mem::size_of_val", Call(lambda x: x.startswith("std::vec::Vec::<") and x.endswith("::as_slice"), Param(0))), write_len) or
+                                     m(Call("std::mem::size_of_val", Call(lambda x: x.endswith("::deref") and "Vec" in x, Param(0))), write_len))
     ctx.ob("C06.R2.basic.vec-body", "Vec<V>" + tag, where, okw, "formula", "body writes len(self) * size_of::<V>() bytes: %s" % (tstr(write_len) if write_len else "?"))
     lb = f["load"]
     L = serfmt.load_seq(lb)
@@ -331,13 +360,10 @@ def check_basic(ctx, F, by_name, tag):
             from guards import resolve_nonzero_vars
             pad_block = [bi for bi, t in bb.calls() if t["sp"] == wa[1]["sp"] and callee_written(t) == "std::io::Write::write_all"]
             pad, pad_facts = resolve_nonzero_vars(bb, pad_block[0], wa[1]["args"][1]) if pad_block else (wa[1]["args"][1], [])
-            second = m(Call(lambda x: "Index" in x and x.endswith("::index"), ("repeat", Const(0), ANY),
-                            ("adt", "std::ops::Range", "Range", ANY, (Const(0), Bin("Sub", Call("bits::round_up_to_word_bytes", LEN), LEN)))), pad, env) \
-                and core(wa[1]["args"][0])[:2] == ("param", 1)
             # padding only when padded_len > len
             fs = list(wa[1]["facts"]) + pad_facts
-            guard = any(fc[0] == "cmp" and ((fc[1] == "Gt" and m(Call("bits::round_up_to_word_bytes", LEN), fc[2]) and m(LEN, fc[3])) or
-                                            (fc[1] == "Lt" and m(Call("bits::round_up_to_word_bytes", LEN), fc[3]) and m(LEN, fc[2]))) for fc in fs)
+            second, guard = padding_form(pad, fs, LEN, env)
+            second = second and core(wa[1]["args"][0])[:2] == ("param", 1)
             okb = first and second and guard
             detail = "body = bytes then zero padding of round_up_to_word_bytes(len) - len bytes when > 0%s: first=%s padding=%s guard=%s" % (
                 (" (padding written by helper %s)" % wa[1]["via"]) if wa[1]["via"] else "", first, second, guard)
@@ -361,10 +387,8 @@ def check_basic(ctx, F, by_name, tag):
             vlen = Call(is_vec_len, Call("std::vec::from_elem", Const(0), Bind("size")))
             from guards import resolve_nonzero_vars
             skip, skip_facts = resolve_nonzero_vars(lb, re[1][0], lb.term_of_operand(re[1][1]["args"][1]))
-            second = m(Call(lambda x: "IndexMut" in x and x.endswith("::index_mut"), ("repeat", Const(0), ANY),
-                            ("adt", "std::ops::Range", "Range", ANY, (Const(0), Bin("Sub", Call("bits::round_up_to_word_bytes", vlen), vlen)))), skip, env)
             fs = facts_at(lb, re[1][0]) + skip_facts
-            guard = any(fc[0] == "cmp" and fc[1] == "Gt" and m(Call("bits::round_up_to_word_bytes", vlen), fc[2], dict(env)) and m(vlen, fc[3], dict(env)) for fc in fs)
+            second, guard = padding_form(skip, fs, vlen, env, mutable=True)
             oks = [st for bi, si, st in lb.stmts() if st["s"] == "assign" and st["lhs"]["l"] == 0 and st["rv"]["r"] == "agg" and st["rv"].get("vname") == "Ok"]
             ret = len(oks) == 1 and m(Call("std::vec::from_elem", Const(0), Bind("size")), lb.term_of_operand(oks[0]["rv"]["ops"][0]), env)
             okl = first and second and guard and ret
